@@ -79,8 +79,8 @@ def codec : Sdp.Codec := Drv.Codec.real
 
 def showLogic (c : Sdp.LogicContext) : String :=
   let ctl (b : Bytes) := if b.isEmpty then "-" else Hex.ofBytes (Sdp.makeSetupUri (Sdp.asc "u") b)
-  let au := (c.audioPayloadTypeBase == Sdp.ptAac && c.asc.isSome) || c.audioPayloadTypeBase == Sdp.ptG711A
-            || c.audioPayloadTypeBase == Sdp.ptG711U || c.audioPayloadTypeBase == Sdp.ptOpus
+  let au := c.hasAudio && ((c.audioPayloadTypeBase == Sdp.ptAac && c.asc.isSome) || c.audioPayloadTypeBase == Sdp.ptG711A
+            || c.audioPayloadTypeBase == Sdp.ptG711U || c.audioPayloadTypeBase == Sdp.ptOpus)
   let vu := c.videoPayloadTypeBase == Sdp.ptAvc || c.videoPayloadTypeBase == Sdp.ptHevc
   s!"acr={c.audioClockRate} vcr={c.videoClockRate} asc={showOpt c.asc} vps={showOpt c.vps} sps={showOpt c.sps} pps={showOpt c.pps} " ++
   s!"apt={c.audioPayloadTypeBase} vpt={c.videoPayloadTypeBase} ao={c.audioPayloadTypeOrigin} vo={c.videoPayloadTypeOrigin} " ++
